@@ -490,6 +490,8 @@ def cx(e, env, want=None):
             return f"(u_{m} {t} {arg1('N')})", "N"
         if ty == "N" and m in ("checked_add", "checked_mul"):
             return f"(u_{m} {t} {arg1('N')})", "optN"
+        if ty == "Z" and m == "unsigned_abs" and not args:
+            return f"(i_unsigned_abs {t})", "N"        # exact: |v| as a u32, no overflow case
         if ty == "Z" and m == "checked_sub":
             return f"(i_checked_sub {t} {arg1('Z')})", "optZ"
         if ty in ("optN", "optZ") and m == "expect" and len(args) == 1 and args[0][0] == "str":
@@ -888,9 +890,17 @@ def gen_arr():
         rest = "ARest"
         after = body[ms[0].end():]
         if acc == "get":
-            ds = re.findall(r"\.\s*inner\s*\.\s*(\w+)\s*\(([^()]*)\)", after)
-            if len(ds) != 1 or ds[0][0] != "get":
-                fail(f"{what}: expected exactly one delegation `self.inner.get(E)` after the bounds test")
+            ds = list(re.finditer(r"\.\s*inner\s*\.\s*(\w+)\s*\(([^()]*)\)", after))
+            if len(ds) != 1:
+                fail(f"{what}: expected exactly one delegation `self.inner.<accessor>(E)` after the bounds test")
+            via = ds[0].group(1)
+            if via == "get_lazy":
+                # the mapper receives the element's thunk: self.inner.get_lazy(E).expect("index checked")
+                if not re.match(r'\s*\.\s*expect\s*\(\s*"[^"]*"\s*\)', after[ds[0].end():]):
+                    fail(f"{what}: `self.inner.get_lazy(E)` is not followed by `.expect(..)`")
+            elif via != "get":
+                fail(f"{what}: delegation through `{via}` is not translated")
+            ds = [(via, ds[0].group(2))]
             j, jty = cx(P(tokenize(ds[0][1], what), what).expr(), env)
             if jty != "N":
                 fail(f"{what}: delegated index is not a usize")
@@ -900,7 +910,7 @@ def gen_arr():
                 fail(f"{what}: the cache is indexed by `{idx}`, not by `index`")
         define(f"gen_mapped_{acc}", "(cached_len index : N) : acc", f"(acc_if {c} ANone {rest})",
                f"MappedArray::{acc}: the bounds test"
-               + (" and the delegated index" if acc == "get" else "; ARest = the thunk built for an in-bounds index"))
+               + (f" and the index delegated to (through self.inner.{via})" if acc == "get" else "; ARest = the thunk built for an in-bounds index"))
     p, r, b = parse_fn(mblk, "get_cheap", "MappedArray::get_cheap")
     check_params(p, "&self, _index: usize", "MappedArray::get_cheap")
     define("gen_mapped_get_cheap", "(cached_len index : N) : acc",
@@ -1182,6 +1192,7 @@ Definition i_gt := olift2 (fun a b => Some (b <? a)%Z).
 Definition i_eq := olift2 (fun a b => Some (a =? b)%Z).
 Definition i_neg (a : option Z) : option Z :=
   obind a (fun x => if (x =? g_i32_min)%Z then None else Some (- x)%Z).
+Definition i_unsigned_abs (a : option Z) : option N := obind a (fun x => Some (Z.abs_N x)).
 Definition i_checked_sub :=
   olift2 (fun a b => Some (if ((g_i32_min <=? a - b) && (a - b <=? g_i32_max))%Z then Some (a - b)%Z else None)).
 (* `x as usize` on an i32: sign extension *)
